@@ -137,7 +137,7 @@ def run(chk):
     rng = chk.rng.fork("c07")
     progs, icases, mlines, meta = [], [], [], []
     for i in range(n):
-        p = asm_gen.gen_prog(rng, size_static=True, collide=False, boundary=rng.chance(0.2))
+        p = asm_gen.gen_unsized_prog(rng) if rng.chance(0.08) else asm_gen.gen_prog(rng, size_static=True, collide=False, boundary=rng.chance(0.2))
         s, m = rng.chance(0.7), rng.chance(0.7)
         base_text, base_ml = p.variant()
         icases.append((base_text, 30, s, m)); mlines.append(base_ml(30, m)); meta.append((i, "base", None))
